@@ -10,6 +10,7 @@ import (
 	"encoding/binary"
 	"net/http"
 	"sort"
+	"sync"
 	"time"
 
 	"github.com/WICG/webpackage/go/bundle"
@@ -20,15 +21,17 @@ import (
 
 var sigKeys []keyMat // leaf keys with DNS names; intermediates
 
+var sigKeysOnceV sync.Once
+
 func sigKeysOnce() {
-	if sigKeys == nil {
+	sigKeysOnceV.Do(func() {
 		sigKeys = []keyMat{
 			newECKey(elliptic.P256(), "example.com", 0, 0),
 			newECKey(elliptic.P384(), "a.test", 1, 0),
 			newECKey(elliptic.P256(), "intermediate.example", 2, 30),
 			newECKey(elliptic.P256(), "www.example.org", 3, 0),
 		}
-	}
+	})
 }
 
 func sigX509Tab() Sx {
